@@ -11,22 +11,8 @@ open Sucds.Spec
 
 /-! ### the constructors `from_int`, `from_slice` -/
 
-/-- `CompactVector::from_int(val, len, width)`: `none` = `Err`; the two `unwrap`s are panics if they fail -/
-def fromInt (val len width : Nat) : R (Option CV) :=
-  if ¬ (1 ≤ width ∧ width ≤ 64) then .ok none
-  else if decide (width < 64) && (val >>> width != 0) then .ok none
-  else match new width with
-    | none => .error .unwrapNone                                  -- `with_capacity(len, width).unwrap()`
-    | some v0 => (v0.extend (List.replicate len val)).bind fun r =>
-        if r.2 then .ok (some r.1) else .error .unwrapNone        -- `push_int(val).unwrap()`
-
-/-- `CompactVector::from_slice(vals)` for `usize` values: `none` = `Err` (the `?` on `with_capacity`) -/
-def fromSlice (c : Cfg) (vals : List Nat) : R (Option CV) :=
-  if vals.isEmpty then .ok (some default)
-  else match new (neededBits c (vals.foldl max 0)) with
-    | none => .ok none
-    | some v0 => (v0.extend vals).bind fun r =>
-        if r.2 then .ok (some r.1) else .error .unwrapNone        -- `push_int(x).unwrap()`
+-- `CV.fromInt` and `CV.fromSlice` (the models of `from_int` / `from_slice`) are defined in the model files
+-- `Sucds/Model/CompactVector.lean` and `Sucds/Model/Dacs.lean`; the driver executes those definitions.
 
 theorem takeWhile_all {α} (p : α → Bool) (l : List α) (h : ∀ x ∈ l, p x = true) : l.takeWhile p = l := by
   induction l with
